@@ -178,18 +178,30 @@ def pIndex : Sch → Sch
   | .series _ _ idx => .index idx
   | _ => .bad
 
-/-- `idx.to_series()` (single level) -/
+/-- `idx.to_series()`: the values of a MultiIndex are tuples -/
 def pIndexToSeries : Sch → Sch
+  | .index [] => .bad
   | .index [(n, k)] => .series n k [(n, k)]
+  | .index lvls => .series none .obj lvls
   | _ => .bad
+
+def allNamed : List Lvl → Option (List Col)
+  | [] => some []
+  | (some n, k) :: t => (allNamed t).map ((n, k) :: ·)
+  | (none, _) :: _ => none
 
 /-- `idx.to_frame(name=…)` (single level; an unnamed index without `name` gives the integer label 0) -/
 def pIndexToFrame (name : Option Name) : Sch → Sch
+  | .index [] => .bad
   | .index [(n, k)] =>
-    match name, n with
-    | some m, _ => .frame [(m, k)] [(n, k)]
-    | none, some m => .frame [(m, k)] [(n, k)]
-    | none, none => .bad
+    (match name, n with
+     | some m, _ => .frame [(m, k)] [(n, k)]
+     | none, some m => .frame [(m, k)] [(n, k)]
+     | none, none => .bad)
+  | .index lvls =>
+    (match name, allNamed lvls with
+     | none, some cols => .frame cols lvls      -- one column per level of a MultiIndex
+     | _, _ => .bad)
   | _ => .bad
 
 /-- `s.to_frame(name=…)` -/
@@ -825,12 +837,47 @@ def hasColumns : Sch → Bool
   | .frame cols _ => !cols.isEmpty
   | _ => true
 
+def meetName (a b : Option Name) : Option Name := if a == b then a else none
+
+/-- `n if all(other[i] == n for other in names) else None`, level by level -/
+def commonNames : List (List (Option Name)) → List (Option Name)
+  | [] => []
+  | n :: ns => ns.foldl (List.zipWith meetName) n
+
+def lvlNames (i : List Lvl) : List (Option Name) := i.map (·.1)
+
+def idxOf : Sch → Option (List Lvl)
+  | .frame _ i => some i
+  | .series _ _ i => some i
+  | _ => none
+
+def allIdx : List Sch → Option (List (List Lvl))
+  | [] => some []
+  | s :: t =>
+    match idxOf s, allIdx t with
+    | some i, some r => some (i :: r)
+    | _, _ => none
+
+def setNames (idx : List Lvl) (names : List (Option Name)) : List Lvl :=
+  List.zipWith (fun l n => (n, l.2)) idx names
+
+/-- D99: after the concat of the stand-ins (pandas keeps the name of a leading RangeIndex stand-in) every index level
+    is given the name ALL inputs agree on, provided they all have as many levels as the result -/
+def overrideNames (m : Sch) (ss : List Sch) : Sch :=
+  match allIdx ss with
+  | none => m
+  | some idxs =>
+    match m with
+    | .frame c mi =>
+      if idxs.all (fun i => i.length == mi.length) then .frame c (setNames mi (commonNames (idxs.map lvlNames))) else m
+    | .series n k mi =>
+      if idxs.all (fun i => i.length == mi.length) then .series n k (setNames mi (commonNames (idxs.map lvlNames))) else m
+    | m => m
+
 /-- `Concat._meta`: frames without columns are ignored ("to avoid dtype upcasting") -/
 def declConcat (axis1 inner : Bool) (ss : List Sch) : Sch :=
   let used := ss.filter hasColumns
-  if axis1 then pConcatCols used else pConcatRows inner used
-
-def lvlNames (i : List Lvl) : List (Option Name) := i.map (·.1)
+  if axis1 then pConcatCols used else overrideNames (pConcatRows inner used) ss
 
 /-- `StackPartition._layer`: `check_meta(df._meta, self._meta)` (same container, same labels in the same order —
     dtypes were aligned by `Concat._lower`) and equal index names and series name -/
